@@ -53,7 +53,7 @@ BOUNDS = {'quick': 'depth<=2 over the full constant palette (all trees); depth 3
 VARLEN = R.VARLEN
 NAMES = ('x', 'y', 'z')
 PAL = (-1, 0, 2)
-D4_BUDGET = 1500
+D4_BUDGET = 4000
 REFUSAL = (TypeError, ValueError, NotImplementedError, IndexError)
 TOL = 1e-12
 
@@ -165,7 +165,8 @@ def parents(g, ginfo, seed, pal, partners, left_only):
     for c in K:
         yield ['mul', c, g]
         yield ['rmul', g, c]
-        yield ['div', g, c]
+        if not (len(c[3]) == 1 and c[3][0] == 0):
+            yield ['div', g, c]
     for c in _dotconsts(seed):
         yield ['dot', c, g]
         yield ['dotr', g, c]
@@ -219,11 +220,27 @@ def depth2(seed, pal):
     return _T2[key]
 
 
+def quick_partners(seed):
+    """the 27 representative depth-2 trees used as the other operand of binary roots in the quick tier."""
+    K = consts(seed)
+    x, y, z = LEAVES
+    out = []
+    for v in LEAVES:
+        out += [['neg', v], ['sum', v], ['index', v, ['int', -1]], ['index', v, ['slice', None, None, -1]],
+                ['abs', v], ['max1', v]]
+    out += [['mul', K['drow2'], y], ['mul', K['sm23'], z], ['mul', K['dm32'], y], ['rmul', x, K['dcol3']]]
+    out += [['add', x, y], ['sub', z, x], ['max', x, K['i0']], ['min', y, x], ['add', y, K['dcol2']]]
+    return out
+
+
 def family_d3(i, seed, pal):
     uniq, ok, memo = depth2(seed, pal)
     g, ginfo = ok[i]
     K = klist(seed, pal)
-    partners = LEAVES + K + [t for t, _ in ok]
+    if pal == 'full':
+        partners = LEAVES + K + [t for t, _ in ok]
+    else:
+        partners = LEAVES + K + quick_partners(seed)
     return parents(g, ginfo, seed, pal, partners, LEAVES + K)
 
 
@@ -323,23 +340,23 @@ def addterm_family(v, k1, seed):
 # ====================================================================== cases
 def cases(tier, seed, flavour):
     seed = int(seed) % 4
-    yield {'fam': 'probe', 'seed': seed}
+    yield {'fam': 'probe', 'seed': seed, 'tier': tier}
     uniq, ok, _ = depth2(seed, 'full')
     for lo in range(0, len(uniq), 60):
-        yield {'fam': 'd2', 'seed': seed, 'lo': lo, 'hi': min(lo + 60, len(uniq))}
+        yield {'fam': 'd2', 'seed': seed, 'tier': tier, 'lo': lo, 'hi': min(lo + 60, len(uniq))}
     for v in NAMES:
         for k1, _ in coef_forms(v, seed):
-            yield {'fam': 'addterm', 'seed': seed, 'v': v, 'k1': k1}
+            yield {'fam': 'addterm', 'seed': seed, 'tier': tier, 'v': v, 'k1': k1}
     for lo in range(0, len(ok), 4):
-        yield {'fam': 'inplace', 'seed': seed, 'pal': 'full', 'lo': lo, 'hi': min(lo + 4, len(ok))}
+        yield {'fam': 'inplace', 'seed': seed, 'tier': tier, 'pal': 'full', 'lo': lo, 'hi': min(lo + 4, len(ok))}
     pal = 'full' if tier == 'thorough' else 'quick'
     _, ok3, _ = depth2(seed, pal)
     for i in range(len(ok3)):
-        yield {'fam': 'd3', 'seed': seed, 'pal': pal, 'i': i}
+        yield {'fam': 'd3', 'seed': seed, 'tier': tier, 'pal': pal, 'i': i}
     if tier == 'thorough':
         _, okq, _ = depth2(seed, 'quick')
         for i in range(len(okq)):
-            yield {'fam': 'd4', 'seed': seed, 'i': i, 'budget': D4_BUDGET}
+            yield {'fam': 'd4', 'seed': seed, 'tier': tier, 'i': i, 'budget': D4_BUDGET}
 
 
 def crash_key(case):
@@ -377,12 +394,15 @@ def full_points(n):
     return _PTS[k]
 
 
+ALLPAIRS = 27
+
+
 def pair_set(n, pts):
-    """pairs for the midpoint test: all pairs when <= 27 points; otherwise all pairs of basis points plus, at every
-    basis point, the three pairs along each coordinate axis."""
-    k = ('p', n, len(pts))
+    """pairs for the midpoint test: all pairs when <= ALLPAIRS points (27 thorough, 9 quick); otherwise all pairs of
+    basis points plus, at every basis point, the three pairs along each coordinate axis."""
+    k = ('p', n, len(pts), ALLPAIRS)
     if k not in _PTS:
-        if len(pts) <= 27:
+        if len(pts) <= ALLPAIRS:
             pr = list(itertools.combinations(pts, 2))
         else:
             B = basis_points(n)
@@ -653,7 +673,7 @@ class Ctx(object):
             return True
         # ---- reference accepts
         if exc is not None:
-            self.fail(t, 'accept', type(exc).__name__, 'documented as allowed but raised %s: %s'
+            self.fail(t, 'accept', '%s:%s' % (type(exc).__name__, slug(exc)), 'documented as allowed but raised %s: %s'
                       % (type(exc).__name__, exc), localize, level)
             return False
         if not self.isfunc(f):
@@ -735,7 +755,7 @@ class Ctx(object):
         if localize:
             m = self.minimal(t)
         if reason:
-            key = 'C11:%s:%s' % (kind, what) if m is t else None
+            key = 'C11:%s:%s:%s' % (kind, what, self.pattern(m)) if m is t else None
         else:
             key = 'C11:%s:%s:%s' % (kind, self.pattern(m), what) if m is t else None
         if key is None:
@@ -829,7 +849,8 @@ class Ctx(object):
                                                                p, k, fp[k], q, k, fq[k], k, fm[k]), t)
                         return
         except Exception as e:
-            self.report('C11:honesty:evaluation-raised:%s' % type(e).__name__, 'value() raised %s' % e, t)
+            self.report('C11:honesty:evaluation-raised:%s:%s' % (info.reason if info.status != 'ok' else self.pattern(t),
+                                                                   type(e).__name__), 'value() raised %s' % e, t)
 
     # ---------------------------------------------------------------- variables() and None
     def variables(self, t, f, info, names, vals):
@@ -935,7 +956,7 @@ class Ctx(object):
                 try:
                     g = do(g)
                 except REFUSAL as e:
-                    self.report('C11:accept:%s(%s):%s' % (lab, self.sig(t), type(e).__name__),
+                    self.report('C11:accept:%s(%s):%s:%s' % (lab, self.sig(t), type(e).__name__, slug(e)),
                                 'in-place %s on the result raised %s: %s' % (lab, type(e).__name__, e), t)
                     break
                 want = tr(cur, ptd)
@@ -975,6 +996,13 @@ class Ctx(object):
 
 import builtins as _b
 builtins_sum, builtins_min = _b.sum, _b.min
+
+
+def slug(e):
+    s = ''.join(ch if ch.isalnum() else '-' for ch in str(e).lower())
+    while '--' in s:
+        s = s.replace('--', '-')
+    return s.strip('-')[:40]
 
 
 # ====================================================================== sparse-minus-function isolation
@@ -1024,6 +1052,8 @@ def sparse_minus_safe():
 
 # ====================================================================== run
 def run(case):
+    global ALLPAIRS
+    ALLPAIRS = 27 if case.get('tier') == 'thorough' else 9
     c = Ctx(case['seed'])
     fam, seed = case['fam'], case['seed']
     if fam == 'probe':
